@@ -36,7 +36,11 @@ type Entry struct {
 	Chan  int64
 	Pos   int // pts / qts / channel pts after the update
 	Count int
+	User  int // KMsg: the user the message comes from (0: none); its access hash must be known
 }
+
+// userID is the Telegram id of scenario user u.
+func userID(u int) int64 { return int64(700 + u) }
 
 // Seq names the sequence an entry belongs to: "pts", "qts", "c<id>" or "" (plain).
 func (e Entry) Seq() string {
@@ -64,6 +68,9 @@ func (e Entry) inChan(c int64) bool {
 }
 
 func (e Entry) String() string {
+	if e.User != 0 {
+		return fmt.Sprintf("%c%d:%d:%d:%d:%d", e.Kind, e.ID, e.Chan, e.Pos, e.Count, e.User)
+	}
 	return fmt.Sprintf("%c%d:%d:%d:%d", e.Kind, e.ID, e.Chan, e.Pos, e.Count)
 }
 
@@ -80,7 +87,7 @@ const (
 func (e Entry) Update() tg.UpdateClass {
 	switch e.Kind {
 	case KMsg:
-		return &tg.UpdateNewMessage{Message: &tg.Message{ID: e.ID, PeerID: &tg.PeerChat{ChatID: 7}}, Pts: e.Pos, PtsCount: e.Count}
+		return &tg.UpdateNewMessage{Message: e.message(), Pts: e.Pos, PtsCount: e.Count}
 	case KOther:
 		return &tg.UpdateDeleteMessages{Messages: []int{e.ID}, Pts: e.Pos, PtsCount: e.Count}
 	case KQts:
@@ -99,7 +106,11 @@ func (e Entry) message() tg.MessageClass {
 	if e.Kind == KChMsg {
 		return &tg.Message{ID: e.ID, PeerID: &tg.PeerChannel{ChannelID: e.Chan}}
 	}
-	return &tg.Message{ID: e.ID, PeerID: &tg.PeerChat{ChatID: 7}}
+	m := &tg.Message{ID: e.ID, PeerID: &tg.PeerChat{ChatID: 7}}
+	if e.User != 0 {
+		m.SetFromID(&tg.PeerUser{UserID: userID(e.User)})
+	}
+	return m
 }
 
 // idOf recovers the entry id (or barrier id) from a dispatched update.
@@ -197,7 +208,7 @@ type World struct {
 	Log     []Entry
 	Emitted int // Log[:Emitted] has happened on the server
 	P0, Q0  int
-	Seq     int // the server's seq: number of the last container it has sent (delivered or not)
+	Seq     int           // the server's seq: number of the last container it has sent (delivered or not)
 	C0      map[int64]int // every channel of the scenario and the pts its part of the log starts from
 
 	// Fresh: channels the storage knows nothing about at the start (they are met during the run).
@@ -208,9 +219,10 @@ type World struct {
 	// Created: channels without stored state that have been met, with the position they were met at
 	// (pts - pts_count of the first update routed to them): where their sequence starts for this client.
 	// Predicted by the harness from what it pushed / what the oracle forwarded, not read from the manager.
-	Created map[int64]int
-	live    map[int64]bool // channels expected to have a worker (loaded at the start, or met)
-	MetVia  map[int64]string // how a channel was met: push | common-difference | channel-difference
+	Created    map[int64]int
+	live       map[int64]bool   // channels expected to have a worker (loaded at the start, or met)
+	KnownUsers map[int64]bool   // users (Telegram ids) whose access hash the client knows
+	MetVia     map[int64]string // how a channel was met: push | common-difference | channel-difference
 	// Started: channels for which the manager has (or is about to have) a worker: loaded at the start,
 	// or the manager asked the storage for their pts (handleChannel does so right before starting one).
 	Started map[int64]bool
@@ -241,7 +253,7 @@ type World struct {
 func NewWorld(log []Entry, p0, q0 int, c0 map[int64]int) *World {
 	return &World{Log: log, P0: p0, Q0: q0, C0: c0, ChanTooLong: map[int64]bool{}, Extra: map[string][]int{}, FailNext: map[string]bool{}, inDiff: map[int64]bool{},
 		lastFinal: map[int64]bool{}, genuineTL: map[int64]int{},
-		Fresh: map[int64]bool{}, Late: map[int64]bool{}, Known: map[int64]bool{}, stored: map[int64]bool{}, Created: map[int64]int{}, Started: map[int64]bool{}, live: map[int64]bool{}, MetVia: map[int64]string{}}
+		Fresh: map[int64]bool{}, Late: map[int64]bool{}, Known: map[int64]bool{}, stored: map[int64]bool{}, Created: map[int64]int{}, Started: map[int64]bool{}, live: map[int64]bool{}, MetVia: map[int64]string{}, KnownUsers: map[int64]bool{}}
 }
 
 // hashUnknown: nobody can tell the client the channel's access hash right now.
@@ -252,6 +264,15 @@ func (w *World) hashUnknown(c int64) bool { return UnknownChan(c) || (w.Late[c] 
 // has no worker and no stored state is met at the lowest pts - pts_count of its updates in the
 // container (the routing sorts by that).
 func (w *World) contact(container []Entry, via string) {
+	// a container with a message from a user whose access hash is unknown is dropped as a whole (a
+	// common difference brings its users along, so it is never in that situation)
+	if via != "common-difference" {
+		for _, en := range container {
+			if en.Kind == KMsg && en.User != 0 && !w.KnownUsers[userID(en.User)] {
+				return
+			}
+		}
+	}
 	for _, en := range container {
 		if en.Kind != KChMsg && en.Kind != KChOther {
 			continue
@@ -398,14 +419,21 @@ func (w *World) commonDifference(pts, qts int) tg.UpdatesDifferenceClass {
 		others = append(others, e.Update())
 		sv.Extras = append(sv.Extras, e.ID)
 	}
+	// the answer comes with the full user objects of everything it carries
+	var users []tg.UserClass
+	for _, e := range append(append([]Entry{}, part...), extras...) {
+		if e.User != 0 {
+			users = append(users, &tg.User{ID: userID(e.User), AccessHash: int64(1000 + e.User)})
+		}
+	}
 	sv.ToPts = st.Pts
 	if more {
 		sv.Kind = "slice"
 		w.Served = append(w.Served, sv)
-		return &tg.UpdatesDifferenceSlice{NewMessages: msgs, NewEncryptedMessages: enc, OtherUpdates: others, IntermediateState: st}
+		return &tg.UpdatesDifferenceSlice{NewMessages: msgs, NewEncryptedMessages: enc, OtherUpdates: others, IntermediateState: st, Users: users}
 	}
 	w.Served = append(w.Served, sv)
-	return &tg.UpdatesDifference{NewMessages: msgs, NewEncryptedMessages: enc, OtherUpdates: others, State: st}
+	return &tg.UpdatesDifference{NewMessages: msgs, NewEncryptedMessages: enc, OtherUpdates: others, State: st, Users: users}
 }
 
 // channelDifference answers updates.getChannelDifference(channel, pts).
@@ -625,4 +653,24 @@ func (h hasher) GetChannelAccessHash(_ context.Context, _, channelID int64) (int
 		return 0, false, nil
 	}
 	return channelID*1000 + 1, true, nil
+}
+
+// userHasher knows the access hashes of the users the scenario declares known (action U) and
+// learns the ones the manager tells it (from the users a difference answer comes with).
+type userHasher struct{ w *World }
+
+func (h userHasher) SetUserAccessHash(_ context.Context, _, target, _ int64) error {
+	h.w.mu.Lock()
+	h.w.KnownUsers[target] = true
+	h.w.mu.Unlock()
+	return nil
+}
+
+func (h userHasher) GetUserAccessHash(_ context.Context, _, target int64) (int64, bool, error) {
+	h.w.mu.Lock()
+	defer h.w.mu.Unlock()
+	if h.w.KnownUsers[target] {
+		return target + 300, true, nil
+	}
+	return 0, false, nil
 }
